@@ -44,6 +44,15 @@ def rule_const(ctx: Ctx) -> List[Ob]:
                           f"default evaluates to {v!r}" + ("" if ok else f", Algorithm 778 uses {ref}: every existing assertion stays true "
                                                                "but different trial steps are accepted"), False,
                           construct=f"{f.name}({p}={short(d.get(p))})"))
+    # the scaling of the initial model: B_0 = theta I with theta = 1 (Algorithm 778 starts from the identity)
+    init = ctx.repo.func("bfgsmats.LBFGSB_MATRICES.__init__")
+    th = [s_ for s_ in walk_no_nested(init.node) if isinstance(s_, (ast.Assign, ast.AnnAssign)) and getattr(s_, "value", None) is not None
+          and src(s_.targets[0] if isinstance(s_, ast.Assign) else s_.target) == "self.theta"]
+    need(len(th) == 1, "CONST: initial theta of LBFGSB_MATRICES not found")
+    v = _lit(th[0].value)
+    ok = v is not None and not isinstance(v, bool) and float(v) == 1.0
+    obs.append(ob("CONST", "the initial model is the identity (theta = 1)", init, th[0], ok, f"self.theta = {short(th[0].value)}", False,
+                  construct="LBFGSB_MATRICES(): theta = 1.0"))
     return obs
 
 
